@@ -1,5 +1,5 @@
 (* C05 - c-inference = skeptical inference over all c-representations. *)
-From InfOCF Require Import Core Tol CInf PEnt Form Model CModel ThmC.
+From InfOCF Require Import Core Tol CInf PEnt Form Model CModel ThmC ThmPostInt.
 From InfOCFProps Require Import Ex.
 
 (* the compiled constraint system (minimal correction sets, minima encodings, no constraint for an unfalsifiable
@@ -31,6 +31,12 @@ Proof. exact p_sub_c. Qed.
 Print Assumptions C05_p_entailment_sub_c_inference.
 
 (* birds: impacts (1,2,2,1) form a c-representation that rejects (f|p); (w|p) has no counter-representation with impacts <= 3 *)
+(* the constraint system of a strongly consistent base is satisfiable: a c-representation exists (impacts B^(Z-rank of the
+   verification), B = 1 + number of conditionals), so "no solution with the query constraint" is never vacuous *)
+Theorem C05_csp_satisfiable : forall n D P, part_strict n D = Some P -> exists eta, length eta = length D /\ csp_b n D eta = true.
+Proof. exact strict_csp_satisfiable. Qed.
+Print Assumptions C05_csp_satisfiable.
+
 Example birds_c : check_counter 4 birds [1;2;2;1] q_fp = true /\ search_counter 4 birds 3 q_wp = None
   /\ selffulfilling 4 birds = false.
 Proof. vm_compute. repeat split. Qed.
